@@ -41,6 +41,9 @@ RULE = ("E1: random step configurations (label, shell flag, input map, environme
         "the same all_hashes. E4 (stored hashes): json_converter.unstructure of random FileHash / StepHash values "
         "(unknown, compact, explained, with and without outputs, inode up to 2^64-1, float mtimes) is the model's tree, "
         "the tree survives json.dumps/json.loads, and the model structures it back to what from_json returned. "
+        "E5 (skip decision): the real Executor.try_skip_job on a recorded hash that is the current one or differs from it "
+        "in a chosen place (13 kinds) against the generated tests; implementation-only: skipped iff both digests equal. "
+        "Concurrency oracle: 6 ThreadWorker hash jobs on multi-chunk files must each return sha256 of their own file. "
         "Oracle additions: a missing / vanished / changed input never passes compute_inp_hashes quietly; os.stat, "
         "FileHash.refreshed and os.environ refuse strings with NUL.")
 TRUSTED_BASE = [
